@@ -740,7 +740,7 @@ fn judge(
     // read the log (retry while a trailing line is being written by a stuck-but-alive run)
     let mut frames = None;
     for _ in 0..20 {
-        match truth::parse_log(&store.log_bytes()) {
+        match truth::parse_log(&store.log_bytes_settled()) {
             Ok(f) => {
                 frames = Some(f);
                 break;
